@@ -1,3 +1,5 @@
+import copy
+
 from datapackage import Package
 
 from .. import DataStreamProcessor, Flow, DataStream
@@ -17,7 +19,8 @@ class sources(DataStreamProcessor):
         source: DataStream
         for source in self.sources:
             for res in source.res_iter:
-                yield res
+                # bare iterator: paired with this package's (possibly renamed) descriptor by position
+                yield res.it
 
     def process_datapackage(self, dp: Package):
         super().process_datapackage(dp)
@@ -25,7 +28,18 @@ class sources(DataStreamProcessor):
         source: DataStream
         for source in self.sources:
             res1 = descriptor.pop('resources', [])
-            res2 = source.dp.descriptor['resources']
+            res2 = copy.deepcopy(source.dp.descriptor['resources'])
+            # every source numbers its resources from res_1: keep the names unique in the combined package
+            taken = [res['name'] for res in res1]
+            for res in res2:
+                if res['name'] in taken:
+                    old_name, index = res['name'], len(taken) + 1
+                    while 'res_{}'.format(index) in taken:
+                        index += 1
+                    res['name'] = 'res_{}'.format(index)
+                    if res.get('path') == '{}.csv'.format(old_name):
+                        res['path'] = '{}.csv'.format(res['name'])
+                taken.append(res['name'])
             descriptor.update(source.dp.descriptor)
             descriptor['resources'] = res1 + res2
         dp.commit()
